@@ -66,6 +66,7 @@ func Harness_C12_L2_ExecuteMessages() {
 	authority, aerr := k.authKeeper.AddressCodec().StringToBytes(k.authority)
 	verifAssume(aerr == nil)
 	xs, dx := verifSymStr("acctX"), verifSymStr("denomX")
+	verifAssume(sdk.ValidateDenom(dx) == nil) // only valid denoms can be held (the bank panics on others)
 	x, xOK := k.addr(xs)
 	verifAssume(xOK)
 	balX0 := k.bal(ctx, x, dx)
